@@ -10,6 +10,8 @@ G11 = [1e-4, 1e-3, 0.01, 0.1, 0.3, 0.5, 0.7, 0.9, 0.99, 0.999, 1 - 1e-4]
 G41 = sorted(set(G11 + [round(0.05 * i, 2) for i in range(1, 20)] +
                  [0.02, 0.98, 3e-4, 1 - 3e-4, 3e-3, 1 - 3e-3, 0.03, 0.97, 0.33, 0.67, 0.005, 0.995]))
 BOUNDARY = [0.0, 1e-12, 1 - 1e-12, 1.0]
+# positive values so small that u ** -theta overflows: still points of the unit square "within 1e-12 of the boundary"
+TINY = [5e-324, 1e-300, 1e-100, 1e-40]
 
 THETAS = {
     'quick': {
